@@ -448,5 +448,65 @@ theorem mvn_instance :
 
 end C18Ext
 
+/-! ## Audit (g27): non-vacuity of the hypothesis sets used above -/
+section Audit
+open AdN AdS AdX Ad.Net
+
+/-- `maf_grad_finite`'s hypotheses (`hnet`, `hx`) discharged for a concrete relu conditioner (same network as `coupling_instance`);
+no instance of the masked-autoregressive theorem existed -/
+theorem maf_audit_instance :
+    GradFinite (envVecs [[0.3, -1.2], [0], [0], [2, -3], [0.5, 0.25]])
+      (autoreg (mlp Prim.relu [[(Vec.ofVec 1 1, Expr.get 2 (fun _ => 0))]]
+          [(Vec.ofVec 3 1, Expr.get 4 (fun _ => 0)), ([Expr.get 3 (fun _ => 1)], Expr.get 4 (fun _ => 1))])
+        (affineTld (Expr.const (fin 0.01)) · · (Expr.const (fin 0)) (Expr.const (fin 0.5)) ·) (Vec.ofVec 0 2)).2 := by
+  refine (maf_grad_finite (by norm_num) (fun xs hxs => mlp_vsafe relu_total ?_ ?_ hxs) (vsafeVec_ofVec _ 0 2)).2
+  · intro L hL r hr
+    simp only [List.mem_singleton] at hL; subst hL
+    simp only [List.mem_singleton] at hr; subst hr
+    exact ⟨vsafeVec_ofVec _ 1 1, vsafe_param _ _ _⟩
+  · intro r hr
+    simp only [List.mem_cons, List.not_mem_nil, or_false] at hr
+    rcases hr with rfl | rfl
+    · exact ⟨vsafeVec_ofVec _ 3 1, vsafe_param _ _ _⟩
+    · exact ⟨fun e he => by simp only [List.mem_singleton] at he; subst he; exact vsafe_param _ _ _, vsafe_param _ _ _⟩
+
+/-- `maf_spline_grad_finite`'s hypothesis set discharged (K = 2, input on the interval's lower end) -/
+theorem maf_spline_audit_instance :
+    GradFiniteX (envVecs [[0.3, -2], [], [0], [0], [2, -3, 0.5, 1, 0, 0, 0, 0], [0.5, 0.25, 0, 0, 0, 0, 0, 0]])
+      (autoregV 8 (mlp Prim.relu [[(Vec.ofVec 2 1, Expr.get 3 (fun _ => 0))]]
+          ((List.range 8).map (fun i => ([Expr.get 4 (fun _ => Int.ofNat i)], Expr.get 5 (fun _ => Int.ofNat i)))))
+        (splineTld { K := 2, lo := fin (-2), hi := fin 2, adj := fin 0.01, md := fin 0.001, init := [0, 0, 0, 0, 0.5, 0.5, 0.5, 0.5].map fin })
+        (Vec.ofVec 0 2) []).2 := by
+  refine (maf_spline_grad_finite (K := 2) (lo := -2) (hi := 2) (adj := 0.01) (md := 0.001) (inits := [0, 0, 0, 0, 0.5, 0.5, 0.5, 0.5])
+    rfl (by norm_num) rfl rfl rfl rfl rfl (by norm_num) (by norm_num) (by norm_num)
+    (fun xs hxs => mlp_vsafe relu_total ?_ ?_ hxs) (vsafeVec_ofVec _ 0 2) (fun e he => by simp at he)).2
+  · intro L hL r hr
+    simp only [List.mem_singleton] at hL; subst hL
+    simp only [List.mem_singleton] at hr; subst hr
+    exact ⟨vsafeVec_ofVec _ 2 1, vsafe_param _ _ _⟩
+  · intro r hr
+    obtain ⟨i, _, rfl⟩ := List.mem_map.mp hr
+    exact ⟨fun e he => by simp only [List.mem_singleton] at he; subst he; exact vsafe_param _ _ _, vsafe_param _ _ _⟩
+
+/-- `where_guard_sound`'s four hypotheses are jointly satisfiable in the interesting case: the guarded primitive is `log`, the
+argument is `x = −1` (where `log` is NOT safe), the mask selects the other branch, the safe constant is 1 -/
+theorem where_guard_audit_instance :
+    GradFinite (envOf (-1) [] [])
+      (Expr.sel (fun _ => true) (Expr.const (fin 0)) (Expr.prim Prim.log (Expr.sel (fun _ => true) (Expr.const (fin 1)) (Expr.var 0)))) :=
+  safe_gradFinite (where_guard_sound (fun _ => true) Prim.log 1 (Expr.var 0) (Expr.const (fin 0))
+    trivial trivial (by show (0 : ℝ) < 1; norm_num) (fun h => by cases h))
+/-- negative control: `GradFinite` is falsifiable in the modelled number domain — `sqrt` at exactly 0 has a finite VALUE but the
+adjoint `1·1/(2·sqrt 0) = +∞`, so the predicate fails (the theorems above are not true of every expression) -/
+theorem gradFinite_audit_negative_control : ¬ GradFinite (envOf 0 [] []) (Expr.prim Prim.sqrt (Expr.var 0)) := by
+  intro h
+  have h1 := h.2 (fin 1) trivial
+  simp [Expr.vjp, Expr.eval, envOf, dPrim, AllFin] at h1
+  have e : (fin 1 * (fin 1 / (fin 2 * Num.sqrt (fin 0))) : EF) = pinf := by
+    show EF.mul (fin 1) (EF.div (fin 1) (EF.mul (fin 2) (EF.sqrt (fin 0)))) = pinf
+    simp [EF.sqrt, EF.mul, EF.div, EF.recip]
+  rw [e] at h1
+  exact h1
+end Audit
+
 end C18
 end
